@@ -10,7 +10,7 @@ VARIABLES l, st
 MOD == 65536
 
 Fresh(e, line) == [poisoned |-> FALSE, base |-> line, kind |-> e.kind, start |-> e.start, sn |-> MOD, roc |-> 0, c |-> 0,
-                   nhook |-> 0, lastref |-> 0, ncalls |-> 0]
+                   nhook |-> 0, lastref |-> 0, ncalls |-> 0, npos |-> 0, maxinv |-> 0]
 HookAt(s, k) == Trace[s.base + k]          \* k-th hook event of the current case (1-based)
 RocAfter(s, k) == IF k = 0 THEN 0 ELSE HookAt(s, k).roc
 
@@ -30,6 +30,11 @@ Reason(e, s) ==
          ELSE LET h == HookAt(s, e.ref) IN
               IF h.ev # "next" \/ h.v # e.v THEN "harness_bad_witness"
               ELSE IF ~(e.inv < h.c /\ h.c < e.ret) THEN "value_not_issued_during_call" ELSE ""
+    [] e.ev = "lin" ->      \* hook-less: forced linearization order (by value) must respect real time
+         IF e.pos # s.npos THEN "harness_lin_order"
+         ELSE IF e.v # (s.start + e.pos) % MOD THEN "value_duplicated_or_skipped"
+         ELSE IF e.ret < s.maxinv THEN "issue_order_contradicts_real_time"
+         ELSE ""
     [] e.ev = "read" ->
          IF e.lo > s.nhook \/ e.hi > s.nhook \/ e.lo > e.hi THEN "harness_read_refs"
          ELSE IF e.lo > 0 /\ HookAt(s, e.lo).c > e.inv THEN "harness_read_lo"
@@ -45,6 +50,7 @@ Reason(e, s) ==
 Step(e, s) ==
   CASE e.ev = "next" -> [s EXCEPT !.sn = e.v, !.roc = e.roc, !.c = e.c, !.nhook = s.nhook + 1]
     [] e.ev = "call" -> [s EXCEPT !.lastref = e.ref, !.ncalls = s.ncalls + 1]
+    [] e.ev = "lin" -> [s EXCEPT !.npos = s.npos + 1, !.maxinv = IF e.inv > s.maxinv THEN e.inv ELSE s.maxinv]
     [] OTHER -> s
 
 Init == l = 1 /\ st = [poisoned |-> TRUE]
